@@ -83,7 +83,9 @@ var accPrograms = []accProgram{
 			{"total", "{sumi {.} {2}}", "0", true, func(cur string, p func(int) string, _ func(string) string) string { return refSumi(cur, p(2)) }},
 			{"count", "{sumi {.} 1}", "0", true, func(cur string, p func(int) string, _ func(string) string) string { return refSumi(cur, "1") }},
 			{"max", "{maxi {.} {2}}", "0", true, func(cur string, p func(int) string, _ func(string) string) string { return refMaxi(cur, p(2)) }},
-			{"ratio", "{total}/{count}", "", true, func(_ string, _ func(int) string, row func(string) string) string { return row("total") + "/" + row("count") }},
+			{"ratio", "{total}/{count}", "", true, func(_ string, _ func(int) string, row func(string) string) string {
+				return row("total") + "/" + row("count")
+			}},
 			{"fwd", "<{last}>", "i", false, func(_ string, _ func(int) string, row func(string) string) string { return "<" + row("last") + ">" }},
 			{"last", "{2}", "-", false, func(_ string, p func(int) string, _ func(string) string) string { return p(2) }},
 			{"cat", "{.}{2},", "", false, func(cur string, p func(int) string, _ func(string) string) string { return cur + p(2) + "," }},
